@@ -68,7 +68,9 @@ def _comp_fallback(rep):
     res = rets[-1].value.id if rets else None
     adds = [c for c in walk_local(fi.node, into_nested=True) if res and isinstance(c, ast.Call) and isinstance(c.func, ast.Attribute)
             and norm(c.func.value) == res and c.func.attr in ("append", "extend", "insert")]
-    rep.ob("O5.2", "SHAPE", fi, len(adds) == 1 and adds[0].func.attr == "append", [norm(a) for a in adds], "combined matches are emitted at one place only (after every pattern component is placed)")
+    # no emission site visible (the combination step lives in a helper the rule cannot follow): not decided; several sites / bulk insertion: violated
+    rep.ob("O5.2", "SHAPE", fi, None if not adds else (len(adds) == 1 and adds[0].func.attr == "append"), [norm(a) for a in adds],
+           "combined matches are emitted at one place only (after every pattern component is placed)")
 
 
 def repeated(rep):
